@@ -819,9 +819,12 @@ func bsReplay(raw json.RawMessage, bin, baseDir string) Verdict {
 	}
 	fmt.Fprintf(&concrete, "-- stdout --\n%s-- stderr --\n%s", run.stdout, run.stderr)
 	warns, other := bsParseWarnings(run.stderr)
+	// a "benchstat: ..." line on stderr may be an error report or a mere diagnostic (the exit status
+	// does not tell): it is judged by what it goes with - the tables must be the expected ones
+	// either way, and the line is quoted when they are not
 	for _, l := range other {
-		if strings.HasPrefix(l, "benchstat:") {
-			return mk("benchstat-error", "%s", l)
+		if strings.HasPrefix(l, "benchstat:") && len(c.Expect.Tables) > 0 && strings.TrimSpace(run.stdout) == "" {
+			return mk("benchstat-error", "%s (and no table on stdout, %d expected)", l, len(c.Expect.Tables))
 		}
 	}
 	obs, err := bsParseCSV(run.stdout)
@@ -842,8 +845,8 @@ func bsReplay(raw json.RawMessage, bin, baseDir string) Verdict {
 	}
 	fmt.Fprintf(&concrete, "$ benchstat %s\n-- stdout --\n%s-- stderr --\n%s", strings.Join(quoteAll(txtArgv), " "), run2.stdout, run2.stderr)
 	for _, l := range strings.Split(run2.stderr, "\n") {
-		if strings.HasPrefix(l, "benchstat:") {
-			return mk("benchstat-error", "%s", l)
+		if strings.HasPrefix(l, "benchstat:") && len(c.Expect.Tables) > 0 && strings.TrimSpace(run2.stdout) == "" {
+			return mk("benchstat-error", "%s (and no table on stdout, %d expected)", l, len(c.Expect.Tables))
 		}
 	}
 	tobs, err := bsParseText(run2.stdout)
